@@ -7,7 +7,7 @@
 (* Decl!BuilderSound, Decl!ChainVerdict).  One event per judged program or  *)
 (* probe; the events are independent, so the "trace" is a list of cases.    *)
 (***************************************************************************)
-EXTENDS Decl, BitEnum, Json, IOUtils, TLC
+EXTENDS Decl, BitEnum, AttrGrammar
 
 Rec   == ndJsonDeserialize(IOEnv.TRACEFILE)
 Decls == JsonDeserialize(IOEnv.DECLFILE)
@@ -24,6 +24,13 @@ TVerdict == /\ Ev.ev = "verdict"
 TDefVerdict == /\ Ev.ev = "dverdict"
                /\ ((Verdict(D(Ev)) = "accept" /\ DefaultFits(D(Ev))) => Ev.accepted)
                /\ ((Verdict(D(Ev)) = "reject" \/ ~DefaultFits(D(Ev))) => ~Ev.accepted /\ Ev.in_decl)
+(* C09, attribute grammar: a malformed attribute is rejected (never mis-parsed into something else); a canonical,
+   well-formed one is judged by the layout rule applied to what the grammar says it means *)
+TGVerdict == /\ Ev.ev = "gverdict"
+             /\ LET gv == GrammarVerdict(D(Ev).gram) IN
+                /\ (gv = "must_reject" => ~Ev.accepted /\ Ev.in_decl)
+                /\ (gv = "must_accept" /\ Verdict(D(Ev)) = "accept" => Ev.accepted)
+                /\ (gv = "must_accept" /\ Verdict(D(Ev)) = "reject" => ~Ev.accepted)
 (* C10 *)
 TEnumVerdict == /\ Ev.ev = "everdict"
                 /\ Ev.accepted <=> EnumValid(D(Ev))
@@ -71,7 +78,7 @@ TExpansion == /\ Ev.ev = "expansion"
 
 TInit == l = 1
 TNext == /\ l <= Len(Rec) /\ l' = l + 1
-         /\ (TVerdict \/ TDefVerdict \/ TEnumVerdict \/ TNoRead \/ TProbe \/ TBuilder \/ TChain \/ TConst \/ TRegime \/ TExpansion)
+         /\ (TVerdict \/ TGVerdict \/ TDefVerdict \/ TEnumVerdict \/ TNoRead \/ TProbe \/ TBuilder \/ TChain \/ TConst \/ TRegime \/ TExpansion)
 Accepted == IF TLCGet("stats").diameter - 1 = Len(Rec) THEN TRUE
             ELSE /\ PrintT(<<"REJECTED", TLCGet("stats").diameter, ToJson(Rec[TLCGet("stats").diameter]), "-">>)
                  /\ FALSE
